@@ -520,6 +520,7 @@ func registerIntrinsics(p *Program) {
 	registerThirdParty(p)
 	registerRegex(p)
 	registerTemplate(p)
+	registerUnicode(p)
 	registerGoStubs(p)
 }
 
